@@ -251,6 +251,14 @@ impl Report {
                 .or_default()
                 .push(v);
         }
+        if let Ok(p) = std::env::var("VERIF_DUMP") {
+            let mut s = String::new();
+            for v in &i.violations {
+                s.push_str(&serde_json::to_string(&json!({"kind": v.kind, "site": v.site, "what": v.what, "input": v.input})).unwrap());
+                s.push('\n');
+            }
+            let _ = std::fs::write(p, s);
+        }
         let rdir = dir.join("replays").join(&self.property);
         for ((kind, site), vs) in &groups {
             let v = vs[0];
